@@ -67,6 +67,7 @@ _UBSAN = [
     ("out of bounds for type", "index-oob"),
     ("shift exponent", "shift"),
     ("left shift of", "shift"),
+    ("nan is outside the range of representable values", "float-cast-nan"),
     ("outside the range of representable values", "float-cast"),
     ("not a valid value for type", "invalid-value-load"),
     ("null pointer passed as argument", "nonnull-arg"),
@@ -150,23 +151,44 @@ class Bins:
             raise vlib.MachineryError("failwrite.c does not build:\n" + p.stdout)
 
 
+_TICK = os.sysconf("SC_CLK_TCK")
+
+
+def cpu_seconds(pid):
+    try:
+        f = open("/proc/%d/stat" % pid).read().rsplit(")", 1)[1].split()
+        return (int(f[11]) + int(f[12])) / _TICK       # utime + stime
+    except (OSError, IndexError, ValueError):
+        return 0.0
+
+
 def run_cc(exe, data=None, args=(), timeout=10, cwd=None):
-    """Run the compiler proper on bytes given on stdin. Returns (rc, stdout bytes, stderr str); rc = -999 on timeout,
-    in which case the process gets SIGABRT first so that the sanitizer runtime prints where it was."""
+    """Run the compiler proper on bytes given on stdin. Returns (rc, stdout bytes, stderr str); rc = -999 on timeout.
+    The limit is on the *CPU time* the process has used (a starved process on a loaded machine is not a hang); wall
+    clock is capped at 40x the limit. On timeout the process gets SIGABRT first so that the sanitizer runtime prints
+    where it was."""
     # stdout is not observed here (a cyclic block list makes emitfunc print forever: never buffer it)
     p = subprocess.Popen([exe] + list(args), stdin=subprocess.PIPE, stdout=subprocess.DEVNULL, stderr=subprocess.PIPE, env=base_env(), cwd=cwd)
-    try:
-        out, err = p.communicate(data if data is not None else b"", timeout=timeout)
-        rc = p.returncode
-    except subprocess.TimeoutExpired:
-        p.send_signal(signal.SIGABRT)
+    t0 = time.time()
+    inp = data if data is not None else b""
+    while True:
         try:
-            out, err = p.communicate(timeout=5)
+            out, err = p.communicate(inp, timeout=1.0)
+            rc = p.returncode
+            break
         except subprocess.TimeoutExpired:
-            p.kill()
-            out, err = p.communicate()
-        rc = -999
-    return rc, out, err.decode("utf-8", "replace")
+            inp = None
+            if cpu_seconds(p.pid) < timeout and time.time() - t0 < 40 * timeout:
+                continue
+            p.send_signal(signal.SIGABRT)
+            try:
+                out, err = p.communicate(timeout=60)
+            except subprocess.TimeoutExpired:
+                p.kill()
+                out, err = p.communicate()
+            rc = -999
+            break
+    return rc, out, (err or b"").decode("utf-8", "replace")
 
 
 # ==================================================================================================
@@ -330,7 +352,7 @@ def exec_proc(r, short_bytes=None):
         p = subprocess.Popen(cmd, stdin=fin if fin is not None else subprocess.DEVNULL, stdout=fout, stderr=subprocess.PIPE,
                              env=base_env(), preexec_fn=pre if (r["close_out"] or r["close_in"]) else None)
         try:
-            _, err = p.communicate(timeout=20)
+            _, err = p.communicate(timeout=600)      # nothing here is expected to spin; generous for loaded machines
             rc = p.returncode
         except subprocess.TimeoutExpired:
             p.kill()
@@ -535,7 +557,8 @@ def part_proc(ctx, bins, models):
 # shared: run one source text on the sanitized build and classify
 # ==================================================================================================
 def allowance(nbytes):
-    return 10 + nbytes // 10000      # 10 s + size-proportional allowance (DESIGN.md C19)
+    return 10 + nbytes // 2000       # CPU seconds: 10 s + size-proportional allowance (DESIGN.md C19); 220 KB of nested
+                                     # else-if needs ~5 s of CPU on an idle machine and several times that under memory pressure
 
 
 def observe(exe, data, args=(), timeout=None):
@@ -700,6 +723,8 @@ def render_bound(fam, n):
         return "int a %s;\n" % ("1" * (n - 9)), []
     if fam == "desc_string":
         return 'int a "%s";\n' % A(n - 9), []
+    if fam == "guard":
+        return GUARDS[n - 1] + "\n", []
     if fam == "margs":
         np_, rest = divmod(n, 100)
         na, v = divmod(rest, 2)
@@ -742,6 +767,16 @@ def render_bound(fam, n):
     raise vlib.MachineryError("Bounds.tla: unknown family %s" % fam)
 
 
+# range-guard probes (property anchors: eval.c float->int range checks, decl.c array size overflow, alignment and
+# enumerator range checks); Bounds.tla's NGuard must equal the length of this list
+GUARDS = [
+    "int x = (int)1e30;", "unsigned u = (unsigned)1e30;", "long long x = (long long)-1e30;", "unsigned long long u = (unsigned long long)-1.0;",
+    "int x = (int)9223372036854775808.0;", "unsigned long long u = (unsigned long long)18446744073709551616.0;",
+    "long long x = (long long)-9223372036854775808.0;", "unsigned char c = (unsigned char)1e10;",
+    "char a[0x7fffffffffffffff][16];", "int a[0xffffffffffffffff];", "int a[-1];", "char a[1ull << 63][2];",
+    "_Alignas(3) int x;", "_Alignas(0x100000000) int x;", "enum e { A = 0x7fffffffffffffff, B };", "enum e { A = 0xffffffffffffffff, B };",
+]
+
 DEPTH_FAMS = {"parens", "blocks", "declparens", "pointers", "unaryneg", "dims", "elseif", "structnest", "casts", "sizeofs", "ternary",
               "lognot", "subscripts", "calls", "ifnest"}
 
@@ -753,6 +788,8 @@ def part_bounds(ctx, bins, models):
     if len(r.vcases) != 1:
         raise vlib.MachineryError("Bounds.tla: expected one VCASE line with the case set")
     cases = json.loads(r.vcases[0])["cases"]
+    if sum(1 for c in cases if c["fam"] == "guard") != len(GUARDS):
+        raise vlib.MachineryError("Bounds.tla NGuard differs from the harness' guard probe list")
 
     def one(c):
         src, args = render_bound(c["fam"], c["n"])
